@@ -12,6 +12,10 @@ INVS = ("TypeOK", "Agreement", "BadPointRejected", "BadConfirmRejected", "FailCl
 
 def run(ctx):
     out = os.path.join(ctx.scratch, "c08.ndjson")
+    cf = list(cfgs.K_EC) + [dict(cfgs.K_SM3[2], label="sm3 " + cfgs.K_SM3[2]["label"])]
+    for c in cf:                                   # build everything first: a build failure must not cost a TLC run
+        ctx.build("replay", tuple(c["tags"]))
+        ctx.build("record", tuple(c["tags"]))
     if ctx.tier == "quick":
         # one orthogonal-array block (49 scenarios: every pair of scalar classes / identity pair / key length /
         # confirmation setting) x the honest run and every single adversary action at every protocol point
@@ -48,7 +52,6 @@ def run(ctx):
     if core.count_lines(out) == 0:
         raise core.Infra("MC_C08 emitted no run")
 
-    cf = list(cfgs.K_EC) + [dict(cfgs.K_SM3[2], label="sm3 " + cfgs.K_SM3[2]["label"])]
     ctx.replay_all(out, cf)
     ctx.binding_guard(out, cf[0])
 
